@@ -166,6 +166,7 @@ pub(super) fn derive_schema(input: TokenStream) -> syn::Result<TokenStream> {
 
                     let is_optional_field = inner_option.is_some()
                         || field_attrs.serde.default
+                        || container_attrs.serde.default/* every field is filled from `Default` of the struct */
                         || field_attrs.serde.skip_serializing_if.is_some();
 
                     let mut property_schema = {
